@@ -16,6 +16,16 @@ SIGS = {'fired': [('int',), ('int', 'bool'), ('int', 'bool', 'QString'), ()], 'p
 
 def callback_programs(tier, rng):
     progs = []
+    # translated strings written / passed / logged by a handler (the translation context is part of the value)
+    TR = ('tr', 'hello')
+    for ss in ([('setprop', ('obj', 'a'), 'sval', TR)], [('callm', ('obj', 'a'), 'note', [TR])], [('log', 'log', [TR])],
+               [('setprop', ('obj', 'a'), 'sval', ('bin', '+', TR, L.P('b', 'sval') if hasattr(L, 'P') else ('prop', ('obj', 'b'), 'sval')))],
+               [('if', ('prop', ('obj', 'b'), 'flag'), [('setprop', ('obj', 'a'), 'sval', TR)], [('setprop', ('obj', 'a'), 'sval', ('tr', 'bye'))])],
+               [('let', 'let', 's', None, TR), ('setprop', ('obj', 'a'), 'sval', ('local', 's'))]):
+        progs.append(D.Program('callback', None, ss, params=[], signal='pinged', tag='cb-tr-strings'))
+        progs.append(D.Program('callback', None, ss, params=[('n', 'int')], signal='fired', tag='cb-tr-strings'))
+    for ss in G.void_ternary_bodies():
+        progs.append(D.Program('callback', None, ss, params=[], signal='pinged', tag='cb-void-ternary'))
     for ss in G.callback_tail_shapes():
         progs.append(D.Program('callback', None, ss, params=[], signal='fired', tag='cb-tail-shape'))
         progs.append(D.Program('callback', None, ss, params=[('n', 'int')], signal='fired', tag='cb-tail-shape'))
